@@ -132,6 +132,30 @@ fn seq_spec(ctx: &Ctx, pool: usize, buffer: usize) -> SeqSpec {
     }
 }
 
+/// One key read far more often than the sketch can count (estimate saturates at 15): every further hit is still an
+/// access record. The history starts after 16 + buffer hits of key 1.
+fn hot_key_spec(ctx: &Ctx, buffer: usize) -> SeqSpec {
+    let mut prefix = vec![put(1, 2), put(2, 2)];
+    for _ in 0..(16 + buffer) {
+        prefix.push(get(1));
+    }
+    SeqSpec {
+        name: format!("seq/access-conservation/saturated-key/buffer{}", buffer),
+        setup: Setup { weight: 100, pool: 1, buffer, counters: 64, ..Setup::default() },
+        world: Default::default(),
+        prefix,
+        alphabet: vec![get(1), get(2), Op::MultiRead { keys: vec![1, 1, 2], variant: ReadVariant::MultiGet }, Op::Read { k: 1, variant: ReadVariant::MapGetRef }],
+        depth: if ctx.quick() { 6 } else { 9 },
+        allow: None,
+        oracle: seq_oracle(),
+        keys: vec![1, 2],
+        canon_sketch: true,
+        ghost_key: None,
+        max_states: 2_000_000,
+        time_cap_s: if ctx.quick() { 10.0 } else { 300.0 },
+    }
+}
+
 pub fn def(ctx: &Ctx) -> PropertyDef {
     let quick = ctx.quick();
     let workers = ctx.workers;
@@ -145,6 +169,10 @@ pub fn def(ctx: &Ctx) -> PropertyDef {
     for (pool, buffer) in [(1usize, 1usize), (1, 2), (1, 3)] {
         let name = seq_spec(ctx, pool, buffer).name;
         scenarios.push(seq_scenario(move |c| seq_spec(c, pool, buffer), &name));
+    }
+    for buffer in [1usize, 4] {
+        let name = hot_key_spec(ctx, buffer).name;
+        scenarios.push(seq_scenario(move |c| hot_key_spec(c, buffer), &name));
     }
     let mut assumptions = COMMON_ASSUMPTIONS.to_vec();
     assumptions.push("the buffer index drawn by Pool::add is an explorer data choice when the pool has more than one buffer; the access channel's capacity (constant 10 in the code) is shrunk to 1-2 by the channel shim so that saturation is reachable with a handful of reads");
